@@ -45,11 +45,17 @@ def section(kind, **kw):
 
 
 _SPECIAL = set(".[]()*+?{}|^$\\")
+_INI_DELIMITERS = set("[]{}=,;#\\")
 
 
 def _lit(piece):
-    """a literal piece as an extended regular expression inside an INI value (the INI reader eats one level of backslashes)"""
-    return "".join(("\\\\" + ch) if ch in _SPECIAL else ch for ch in piece)
+    """a literal piece as an extended regular expression"""
+    return "".join(("\\" + ch) if ch in _SPECIAL else ch for ch in piece)
+
+
+def ini_escape(text):
+    """a string as an INI property value: the characters the INI reader treats as delimiters (and the backslash) are escaped"""
+    return "".join(("\\" + ch) if ch in _INI_DELIMITERS else ch for ch in text)
 
 
 def regex_text(r):
@@ -82,13 +88,13 @@ def render(sections):
         out.append("[%s]" % _HEAD[s["kind"]])
         for prop in ("name", "type_kind", "symbol_name", "symbol_version", "change_kind", "accessed_through"):
             if s[prop] != "":
-                out.append("  %s = %s" % (prop, s[prop]))
+                out.append("  %s = %s" % (prop, ini_escape(s[prop])))
         for prop in ("name_regexp", "name_not_regexp", "file_name_regexp", "soname_regexp"):
             t = regex_text(s[prop])
             if t is not None:
-                out.append("  %s = %s" % (prop, t))
+                out.append("  %s = %s" % (prop, ini_escape(t)))
         if s["source_location_not_in"]:
-            out.append("  source_location_not_in = %s" % ", ".join(s["source_location_not_in"]))
+            out.append("  source_location_not_in = %s" % ", ".join(ini_escape(x) for x in s["source_location_not_in"]))
         ats = [r for r in s["ranges"] if r["form"] == "at"]
         # the property can be given once: further "at" ranges are written as the equivalent {b, end}
         betweens = [r for r in s["ranges"] if r["form"] == "between"] + ats[1:]
